@@ -265,6 +265,67 @@ def lean_check(pid: str, thorough: bool = False, own_tables: bool = False):
     return res
 
 
+def tie_check(pid: str):
+    """translator tie (DESIGN 16.5): regenerate the kernels this property uses from REPO's source, build the theorems that
+    identify each regenerated kernel with the hand-written model kernel, audit their axioms.
+    -> {kernel: "proved" | "lost: <why>"}; never raises an alarm by itself."""
+    import translate
+
+    ks = translate.for_property(pid)
+    if not ks:
+        return {}
+    status = translate.run(REPO, pid)
+    out = {}
+    with LeanLock():
+        todo = []
+        for k in ks:
+            nm = k["name"]
+            if status[nm] != "ok":
+                out[nm] = "lost: not translated: " + status[nm]
+            elif not (LEAN / "Skc" / "Tie" / f"{nm}.lean").exists():
+                out[nm] = "lost: no tie theorem file"
+            else:
+                todo.append(nm)
+        rc, _ = _run(["lake", "build"] + [f"Skc.Tie.{nm}" for nm in todo]) if todo else (0, "")
+        built = []
+        for nm in todo:
+            if rc != 0:
+                rc1, o1 = _run(["lake", "build", f"Skc.Tie.{nm}"])
+                if rc1 != 0:
+                    bad = re.findall(r"error: (\S+\.lean:\d+)", o1)
+                    out[nm] = "lost: the regenerated kernel is no longer proved equal to the model kernel" + (f" ({bad[0]})" if bad else "")
+                    continue
+            built.append(nm)
+        if built:
+            names = {}
+            for nm in built + ["Basic"]:
+                src = strip_lean_comments((LEAN / "Skc" / "Tie" / f"{nm}.lean").read_text())
+                names[nm] = ["Skc.Tie." + x for x in re.findall(r"^\s*(?:@\[[^\]]*\]\s*)?theorem\s+([A-Za-z_][A-Za-z0-9_.']*)", src, flags=re.M)]
+                for tok in ("sorry", "admit", "native_decide", "axiom ", "implemented_by", "unsafe "):
+                    if tok in src:
+                        names[nm] = None
+            aud = LEAN / ".audit"
+            aud.mkdir(exist_ok=True)
+            f = aud / f"tie-{pid}.lean"
+            f.write_text("".join(f"import Skc.Tie.{nm}\n" for nm in built + ["Basic"])
+                         + "".join(f"#print axioms {n}\n" for nm in built + ["Basic"] for n in (names[nm] or [])))
+            rc, o = _run(["lake", "env", "lean", str(f)])
+            found = {}
+            for m in re.finditer(r"'([^']+)' depends on axioms: \[([^\]]*)\]", o):
+                found[m.group(1)] = {a.strip() for a in m.group(2).replace("\n", " ").split(",") if a.strip()}
+            for m in re.finditer(r"'([^']+)' does not depend on any axioms", o):
+                found[m.group(1)] = set()
+            for nm in built:
+                ns = names[nm]
+                if ns is None or not ns:
+                    out[nm] = "lost: tie file fails the source audit"
+                elif all(n in found and found[n] <= ALLOWED_AXIOMS for n in ns + (names["Basic"] or [])):
+                    out[nm] = "proved"
+                else:
+                    out[nm] = "lost: axiom audit of the tie theorem failed"
+    return out
+
+
 class Driver:
     """batch interface to the compiled Lean model"""
 
@@ -357,8 +418,9 @@ def write_replay(pid, tier, seed, kind, broken, finding):
 
 
 def write_evidence(pid, tier, seed, coverage, assumptions, wall, violations):
-    d = VERIF / "evidence"
-    d.mkdir(exist_ok=True)
+    # the committed evidence describes runs against /repo itself; self-tests on scratch trees (SKC_REPO) write elsewhere
+    d = VERIF / "evidence" if REPO.resolve() == Path("/repo") else VERIF / "replays" / "evidence-scratch"
+    d.mkdir(parents=True, exist_ok=True)
     ev = {
         "property_id": pid,
         "tier": tier,
@@ -396,13 +458,17 @@ class Ctx:
         self.thorough = tier == "thorough"
 
     def n(self, quick, thorough):
-        return thorough if self.thorough else quick
+        if self.thorough:
+            return thorough
+        return min(thorough, 4 * quick) if getattr(self, "escalate", False) else quick
 
 
 TRUSTED_BASE = [
     "Lean 4.33.0 kernel; Mathlib v4.33.0 lemmas (proved, not trusted)",
     "axioms admitted in property theorems: propext, Classical.choice, Quot.sound (audited by #print axioms on every run)",
     "no sorry/admit/axiom/native_decide/bv_decide/implemented_by/unsafe in lean/ (grepped on every run)",
-    "hand-written Lean model of the Python code, tied to /repo only by this run's correspondence (differential) check",
+    "hand-written Lean model of the Python code, tied to /repo by this run's correspondence (differential) check; for the numeric kernels "
+    "listed under coverage.translator_tie additionally by harness/translate.py (Python ast -> Lean over the NumPy vocabulary of "
+    "lean/Skc/Model/Np.lean, which is the trusted reading of NumPy broadcasting / reductions) and the theorems of lean/Skc/Tie/",
     "harness/ (generators, canonicalisation, 1e-9*scale tolerance rule) and /venv (numpy, pandas, scipy, scikit-learn, PuLP/CBC)",
 ]
